@@ -229,6 +229,10 @@ pub struct LibRecord {
     pub diag_color_digest: String,
     /// lines in the `symbols` listing (hash-order-sensitive items)
     pub symbol_count: usize,
+    /// Some(description) when `customasm::assemble_str_to_binary` on the root
+    /// file's text broke its contract (bytes present <=> no error reported)
+    #[serde(default)]
+    pub str_api: Option<String>,
 }
 
 #[derive(Clone, Debug, PartialEq, Eq, Serialize, Deserialize)]
@@ -391,6 +395,20 @@ fn lib_pass(job: &Job, faults: &[Fault], env: &ExecEnv) -> LibRecord {
         }
         None => return lib,
     };
+    // the string convenience API: output present <=> no error in the report
+    if faults.is_empty() && roots.len() == 1 {
+        if let Some(crate::disk::Node::File(text)) = job.disk.resolve(&roots[0]).ok().and_then(|r| job.disk.nodes.get(&r.abs).cloned()) {
+            let src = String::from_utf8_lossy(&text).to_string();
+            match catch(|| customasm::assemble_str_to_binary(&src)) {
+                Err(p) => lib.str_api = Some(format!("panic: {}", p)),
+                Ok((bytes, report)) => {
+                    if bytes.is_some() == report.has_errors() {
+                        lib.str_api = Some(format!("inconsistent: bytes present = {}, report.has_errors() = {}", bytes.is_some(), report.has_errors()));
+                    }
+                }
+            }
+        }
+    }
     let mut fs = fresh_server(job, faults, env);
     let mut report = diagn::Report::new();
     lib.ran = true;
